@@ -242,3 +242,75 @@ Proof. vm_compute. repeat split; discriminate. Qed.
 Example throughput_guard_satisfiable :
   display_throughput 3 1000 2000 false = Ok [53; 48; 48; 32; 71; 105; 116; 101; 109; 47; 115].  (* 500 Gitem/s *)
 Proof. reflexivity. Qed.
+
+(** ** Glue for C05: finite values never print "NaN" or "inf"; the throughput
+    prints "inf" exactly for a zero duration with a non-zero count. *)
+
+Lemma spec_suffix_letters : forall f i, i <= 5 ->
+  ~ In 78 (spec_suffix f i) /\ ~ In 102 (spec_suffix f i).
+Proof.
+  intros f i Hi.
+  assert (H : i = 0 \/ i = 1 \/ i = 2 \/ i = 3 \/ i = 4 \/ i = 5) by lia.
+  destruct H as [->|[->|[->|[->|[->| ->]]]]]; destruct f as [[|]|[|]| | |]; vm_compute;
+  split; intros HH; repeat (destruct HH as [HH|HH]; [discriminate HH|]); exact HH.
+Qed.
+
+Lemma format_f64_prints_no_nan : forall sig a b, b <> 0 -> sig + 1 < 2 ^ 64 ->
+  exists num, format_f64 sig (VQ a b) = Ok num /\ numeral_chars num /\
+    ~ contains nan_str num /\ ~ contains inf_str num.
+Proof.
+  intros sig a b Hb Hsig. exists (trunc_numeral a b sig).
+  split; [now apply format_f64_spec|]. pose proof (trunc_numeral_chars a b sig) as Hn.
+  split; [exact Hn|]. split.
+  - apply (not_contains_byte 78); [cbn; auto|].
+    apply numeral_chars_notin; [exact Hn|unfold digit; lia|unfold ch_dot; lia].
+  - apply (not_contains_byte 102); [cbn; auto|].
+    apply numeral_chars_notin; [exact Hn|unfold digit; lia|unfold ch_dot; lia].
+Qed.
+
+Lemma fmt_scaled_prints_no_nan : forall f sig a b, b <> 0 -> sig + 1 < 2 ^ 64 ->
+  exists num i, i <= 5 /\
+    fmt_scaled f sig (VQ a b) = Ok (num ++ [ch_space] ++ spec_suffix f i) /\
+    numeral_chars num /\
+    ~ contains nan_str (num ++ [ch_space] ++ spec_suffix f i) /\
+    ~ contains inf_str (num ++ [ch_space] ++ spec_suffix f i).
+Proof.
+  intros f sig a b Hb Hsig. pose proof (fmt_scaled_spec f sig a b Hb Hsig) as H.
+  unfold spec_scaled_string in H.
+  pose proof (spec_scale_props (sfmt_binary f) a b Hb) as [Hi _].
+  destruct (spec_scale (sfmt_binary f) a b) as [i st]. cbn [fst] in Hi.
+  exists (trunc_numeral a (b * st) sig), i. split; [exact Hi|]. split; [exact H|].
+  split; [apply trunc_numeral_chars|].
+  destruct (spec_suffix_letters f i Hi) as [H78 H102].
+  apply no_nan_inf; [apply trunc_numeral_chars|exact H78|exact H102].
+Qed.
+
+Lemma throughput_inf_iff : forall kind count picos binary, kind <= 3 ->
+  exists s, display_throughput kind count picos binary = Ok s /\
+    (starts_with inf_str s <-> count <> 0 /\ picos = 0) /\
+    ~ contains nan_str s.
+Proof.
+  intros kind count picos binary Hk. destruct (thr_format_ok kind binary Hk) as [f Hf].
+  destruct (spec_suffix_letters f 0 ltac:(lia)) as [H78_0 _].
+  destruct (N.eq_dec count 0) as [->|Hc].
+  { eexists. split; [apply (throughput_zero_count _ _ _ _ Hf)|]. split.
+    - split; [intros [post Hp]; discriminate Hp|intros [Hc _]; now elim Hc].
+    - apply (not_contains_byte 78); [cbn; auto|]. cbn [app In]. unfold ch_0, ch_space.
+      intros [HH|[HH|HH]]; [lia|lia|auto]. }
+  destruct (N.eq_dec picos 0) as [->|Hp].
+  { eexists. split; [apply (throughput_zero_duration _ _ _ _ Hf Hc)|]. split.
+    - split; [auto|]. intros _. eexists. reflexivity.
+    - apply (not_contains_byte 78); [cbn; auto|]. cbn [app In]. unfold ch_space.
+      intros [HH|[HH|[HH|[HH|HH]]]]; try lia. auto. }
+  eexists. split; [apply (throughput_scaled _ _ _ _ _ Hf Hc Hp)|].
+  unfold spec_scaled_string.
+  pose proof (spec_scale_props (sfmt_binary f) (count * 1000000000000) picos Hp) as [Hi _].
+  destruct (spec_scale (sfmt_binary f) (count * 1000000000000) picos) as [i st]. cbn [fst] in Hi.
+  destruct (spec_suffix_letters f i Hi) as [H78 H102]. split.
+  - split; [|intros [_ H0]; now elim Hp]. intros [post Hpost]. exfalso.
+    unfold trunc_numeral in Hpost.
+    match type of Hpost with render_fix ?t ?k ++ _ = _ =>
+      destruct (render_fix_head_digit t k) as [b0 [r0 [Er Hd]]]; rewrite Er in Hpost end.
+    cbn [app inf_str] in Hpost. inversion Hpost; subst. unfold digit in Hd. lia.
+  - apply no_nan_inf; [apply trunc_numeral_chars|exact H78|exact H102].
+Qed.
